@@ -47,15 +47,23 @@ def showResult (r : Result) (fwdDir : Bool) : String :=
   s!"R {r.ret} {r.inlen} {r.outlen} {showWide r.outbuf} tf={tf} op={showOptInts r.outputPos} ip={showOptInts r.inputPos} cur={match r.cursor with | some c => toString c | none => "-"}"
 
 /-- `EngineOK` clauses evaluated on one recorded pass (see LouProofs/Contract.lean);
-    forward: E1 out ≤ max, E2 |map| = |out|, E3 realInlen ≤ |in|, E4 −1 ≤ map[k] ≤ |in| -/
-def passOKFwd (pin : PassIn) (po : PassOut) : Bool :=
-  po.out.length ≤ pin.maxlen && po.map.length == po.out.length && po.realInlen ≤ pin.chars.length &&
-  po.map.all (fun p => -1 ≤ p && p ≤ (pin.chars.length : Int))
+    forward: E1 out ≤ max, E2 |map| = |out|, E3 realInlen ≤ |in|, E4 −1 ≤ map[k] ≤ |in|.
+    Returns the names of the failing clauses. -/
+def failedFwd (pin : PassIn) (po : PassOut) : List String :=
+  (if po.out.length ≤ pin.maxlen then [] else ["E1"]) ++
+  (if po.map.length == po.out.length then [] else ["E2"]) ++
+  (if po.realInlen ≤ pin.chars.length then [] else ["E3"]) ++
+  (if po.map.all (fun p => -1 ≤ p && p ≤ (pin.chars.length : Int)) then [] else ["E4"])
 
 /-- backward: E1, E2' |map| = realInlen, E3, E4' 0 ≤ map[i] ≤ |out| -/
-def passOKBack (pin : PassIn) (po : PassOut) : Bool :=
-  po.out.length ≤ pin.maxlen && po.map.length == po.realInlen && po.realInlen ≤ pin.chars.length &&
-  po.map.all (fun p => 0 ≤ p && p ≤ (po.out.length : Int))
+def failedBack (pin : PassIn) (po : PassOut) : List String :=
+  (if po.out.length ≤ pin.maxlen then [] else ["E1"]) ++
+  (if po.map.length == po.realInlen then [] else ["E2"]) ++
+  (if po.realInlen ≤ pin.chars.length then [] else ["E3"]) ++
+  (if po.map.all (fun p => 0 ≤ p && p ≤ (po.out.length : Int)) then [] else ["E4"])
+
+def passOKFwd (pin : PassIn) (po : PassOut) : Bool := (failedFwd pin po).isEmpty
+def passOKBack (pin : PassIn) (po : PassOut) : Bool := (failedBack pin po).isEmpty
 
 def nonNeg (po : PassOut) : Bool := po.map.all (fun p => 0 ≤ p)
 
@@ -98,13 +106,15 @@ def handleTrace (toks : List String) : String :=
         let ins := String.join (h.map fun (pi, _) => s!" | I {pi.passNo} {showWide pi.chars} {pi.maxlen}")
         let eok := h.all (fun (pi, po) => passOKFwd pi po)
         let nn := h.all (fun (_, po) => nonNeg po)
-        pure (showResult res true ++ ins ++ s!" | N {h.length} EOK={boolStr eok} NN={boolStr nn}")
+        let fl := String.join ((h.map fun (pi, po) => failedFwd pi po).flatten.eraseDups)
+        pure (showResult res true ++ ins ++ s!" | N {h.length} EOK={boolStr eok} NN={boolStr nn} F={fl}")
       else if dir == "B" then
         let res := back (some t) (lookupFn pairs 0) e a
         let h := historyBack t (lookupFn pairs 0) e a
         let ins := String.join (h.map fun (pi, _) => s!" | I {pi.passNo} {showWide pi.chars} {pi.maxlen}")
         let eok := h.all (fun (pi, po) => passOKBack pi po)
-        pure (showResult res false ++ ins ++ s!" | N {h.length} EOK={boolStr eok} NN=1")
+        let fl := String.join ((h.map fun (pi, po) => failedBack pi po).flatten.eraseDups)
+        pure (showResult res false ++ ins ++ s!" | N {h.length} EOK={boolStr eok} NN=1 F={fl}")
       else none
     r.getD "BADOP"
   | _ => "BADOP"
